@@ -85,7 +85,42 @@ def plan(tier):
             units += [(tier, sname, n, k, sh) for k in range(sh)]
     units += [(tier, 'matrix', 0, k, 16) for k in range(16)]
     units.append((tier, 'two-schemas', 0, 0, 1))
+    units += [(tier, 'scopes', 0, k, 4) for k in range(4)]
     return units
+
+
+def scope_cases():
+    """Sibling quantifiers (each binds its own variable; the names may coincide) over domains of different
+    element types, joined by every connective, in both orders; plus a third, nested quantifier."""
+    from hplmc.universe import num, this_field as tf
+
+    def V(n):
+        return ('var', n)
+
+    S_A, S_B = ('lit', '"a"', '"a"'), ('lit', '"b"', '"b"')
+    menu = [
+        lambda v: ('quant', 'forall', v, tf('xs'), ('bin', '>', V(v), num(0))),
+        lambda v: ('quant', 'exists', v, ('range', num(0), num(3), False, False), ('bin', '>', ('bin', '+', V(v), tf('x')), num(0))),
+        lambda v: ('quant', 'forall', v, ('set', (num(1), num(2))), ('bin', '>', ('index', tf('xs'), V(v)), num(0))),
+        lambda v: ('quant', 'forall', v, tf('bs'), V(v)),
+        lambda v: ('quant', 'exists', v, ('set', (('lit', 'True', True),)), ('bin', 'and', V(v), tf('p'))),
+        lambda v: ('quant', 'forall', v, tf('bs'), ('un', 'not', V(v))),
+        lambda v: ('quant', 'exists', v, ('set', (S_A, S_B)), ('bin', '=', V(v), tf('s'))),
+        lambda v: ('quant', 'forall', v, ('set', (tf('s'),)), ('bin', '=', V(v), S_A)),
+    ]
+    out = []
+    for i, q1 in enumerate(menu):
+        for j, q2 in enumerate(menu):
+            for n1, n2 in (('i', 'i'), ('i', 'j'), ('x', 'x'), ('p', 's')):
+                for op in ('and', 'or', 'implies'):
+                    out.append(('sibling quantifiers, ' + ('one name' if n1 == n2 else 'two names'), ('bin', op, q1(n1), q2(n2))))
+            # a nested quantifier with another name inside the first, the second sibling reusing that inner name
+            inner = ('quant', 'exists', 'k', tf('bs'), V('k'))
+            a = q1('i')
+            a = a[:4] + (('bin', 'and', a[4], inner),)
+            out.append(('sibling quantifier reusing the name of a quantifier nested in the other', ('bin', 'and', a, q2('k'))))
+            out.append(('sibling quantifier reusing the name of a quantifier nested in the other', ('bin', 'or', q2('k'), a)))
+    return out
 
 
 def wrappers(t, force_alias=False):
@@ -247,17 +282,17 @@ def run(unit):
                     r.count('validated')
         r.sample({'two_schemas': generic[0]})
         return r
-    if sname == 'matrix':
+    if sname in ('matrix', 'scopes'):
         from hplmc import sigmatrix
 
         schemas.FAMILY.setdefault('matrix', sigmatrix.MATRIX_SCHEMA)
-        for i, (desc, t) in enumerate(sigmatrix.valid_cases()):
+        for i, (desc, t) in enumerate(sigmatrix.valid_cases() if sname == 'matrix' else scope_cases()):
             if i % shards != k:
                 continue
             r.count('evaluations')
             r.count('states')
             seen = set()
-            for kind, detail in check_term(t, 'matrix', r, force_alias=True):
+            for kind, detail in check_term(t, 'matrix', r, force_alias=(sname == 'matrix')):
                 if kind in seen:
                     continue
                 seen.add(kind)
